@@ -45,12 +45,15 @@ Section Inst.
   Notation sc := (single_commit csig).
   Notation ac := (agg_commit csig).
 
+  (* aggregation is commutative: an aggregate signature is the multiset of its single signatures *)
+  Definition pair_eqb (p q : N * cert) : bool := (fst p =? fst q) && cert_eqb (snd p) (snd q).
+  Definition count_pair (l : list (N * cert)) (p : N * cert) : nat := length (filter (pair_eqb p) l).
   Definition csig_eqb (a b : csig) : bool :=
     match a, b with
     | CEmpty, CEmpty => true
     | CBad, CBad => true
     | CSig x, CSig y => Nat.eqb (length x) (length y) &&
-                        forallb (fun pq => (fst (fst pq) =? fst (snd pq)) && cert_eqb (snd (fst pq)) (snd (snd pq))) (combine x y)
+                        forallb (fun p => Nat.eqb (count_pair x p) (count_pair y p)) x
     | _, _ => false
     end.
   Definition sc_eqb (a b : sc) : bool :=
@@ -184,6 +187,7 @@ Section Inst.
     end.
 End Inst.
 
-Definition scenario : Type := list key * env * list op.
+(* key table, the node's view, the pool carried over from the earlier part of the history, operations *)
+Definition scenario : Type := list key * env * (list (single_commit csig) * list (single_commit csig)) * list op.
 Definition check_scenario (s : scenario) : N :=
-  let '(kt, e, os) := s in check_ops kt e (empty_pool csig) os 0 0.
+  let '(kt, e, (g0, ng0), os) := s in check_ops kt e {| gossiped := g0; nongossiped := ng0 |} os 0 0.
